@@ -476,6 +476,12 @@ class IxWalk:
         def rows_of(v: IV):
             return v.rows if v.kind in ("arr", "idx", "mask") else None
 
+        if (isinstance(e.func, ast.Name) and e.func.id in self.fi.params() and env.get(e.func.id, UNK) is UNK and len(av) == 2
+                and not e.keywords and all(v.kind in ("arr", "idx", "mask") for v in av)):
+            # a binary callable supplied by the caller (comparison operator, element function) applied to two arrays:
+            # the operands are combined entry by entry
+            r = self.elementwise(av[0], av[1], e, ast.unparse(e)[:90])
+            return IV("arr", rows=r.rows, shp=r.shp)
         if base == "tt_intersect_rows" and len(av) == 2:
             a, b = rows_of(av[0]), rows_of(av[1])
             if a and b:
